@@ -381,8 +381,12 @@ func (r *Run) writeReplay(f *Fail) string {
 	rf := replayFile{Property: r.ID, Kind: f.Kind, Class: f.Class, Msg: f.Msg, Case: cb}
 	b, _ := json.MarshalIndent(rf, "", " ")
 	sum := sha256.Sum256(append([]byte(f.Kind+"\x00"), cb...))
-	os.MkdirAll(r.replayDir, 0o755)
-	path := filepath.Join(r.replayDir, "fail-"+hex.EncodeToString(sum[:6])+".json")
+	dir := r.replayDir
+	if d := os.Getenv("VERIF_FAIL_DIR"); d != "" {
+		dir = d // where new failures are written (committed cases are still read from replayDir)
+	}
+	os.MkdirAll(dir, 0o755)
+	path := filepath.Join(dir, "fail-"+hex.EncodeToString(sum[:6])+".json")
 	if err := os.WriteFile(path, b, 0o644); err != nil {
 		fmt.Printf("  (could not write replay file: %v)\n", err)
 	}
